@@ -84,6 +84,12 @@ class Scheduler:
         self.prio = list(range(n_clients))
         if self.kind == "pct":
             self.rng.shuffle(self.prio)
+        # `fresh` policy: novelty-biased pre-emption.  A line that has not been executed yet
+        # for the current operation's target object (by any client) is a likely part of
+        # once-only code -- lazy initialisation, first-use caches -- whose windows a uniform
+        # coin almost never hits; it gets switch probability p_new, everything else p.
+        self.novel: dict = {}
+        self.p_new = float(self.policy.get("p_new", 0.25))
         self.sites: set = set()
         self.concurrency_probe = {"two_in_parse_same_object": 0, "preempted_in_optimize_while_other_parses": 0, "exec_overlaps_parse": 0}
         self.active_kind = [None] * n_clients  # what each client is in the middle of: (kind, target)
@@ -307,6 +313,16 @@ class Scheduler:
         elif k == "site":
             p = self.p_hot if code.co_name in self.hot else self.p
             if self.rng.random() < p:
+                nxt = self._pick_other(me)
+                if nxt is not None:
+                    self.sites.add((code.co_name, frame.f_lineno))
+                    self._switch(me, nxt, off)
+        elif k == "fresh":
+            ak = self.active_kind[me]
+            key = (ak[1] if ak else None, code.co_name, frame.f_lineno)
+            c = self.novel.get(key, 0)
+            self.novel[key] = c + 1
+            if self.rng.random() < (self.p_new if c == 0 else self.p):
                 nxt = self._pick_other(me)
                 if nxt is not None:
                     self.sites.add((code.co_name, frame.f_lineno))
